@@ -772,6 +772,26 @@ func CurRoot() int {
 //go:norace
 func Aborted() int { return int(abort) }
 
+// SetOpBudget changes the per-operation step budget (until the next BeginRun) and returns the
+// old one.
+//
+//go:norace
+func SetOpBudget(n int64) int64 {
+	old := opBudget
+	opBudget = n
+	return old
+}
+
+// OpBudget returns the per-operation step budget in force.
+//
+//go:norace
+func OpBudget() int64 { return opBudget }
+
+// SoloSteps returns the steps of the reference execution's current operation.
+//
+//go:norace
+func SoloSteps() int64 { return tsteps[MaxTasks] }
+
 // OpStart resets the per-operation step budget and fault state of the calling context.
 //
 //go:norace
